@@ -59,6 +59,10 @@ package client
 //@   && (istype(old(c.qs.pendq.Ops[op.Id]).Op.Entry, *spb.AFTOperation_Ipv4) ==> result0.Details.IPv4Prefix == old(c.qs.pendq.Ops[op.Id]).Op.GetIpv4().GetPrefix())
 //@   && (istype(old(c.qs.pendq.Ops[op.Id]).Op.Entry, *spb.AFTOperation_NextHopGroup) ==> result0.Details.NextHopGroupID == old(c.qs.pendq.Ops[op.Id]).Op.GetNextHopGroup().GetId())
 //@   && (istype(old(c.qs.pendq.Ops[op.Id]).Op.Entry, *spb.AFTOperation_NextHop) ==> result0.Details.NextHopIndex == old(c.qs.pendq.Ops[op.Id]).Op.GetNextHop().GetIndex())
+//@   && (istype(old(c.qs.pendq.Ops[op.Id]).Op.Entry, *spb.AFTOperation_Ipv6) ==> result0.Details.IPv6Prefix == old(c.qs.pendq.Ops[op.Id]).Op.GetIpv6().GetPrefix())
+//@   && (istype(old(c.qs.pendq.Ops[op.Id]).Op.Entry, *spb.AFTOperation_Mpls) ==> result0.Details.MPLSLabel == old(c.qs.pendq.Ops[op.Id]).Op.GetMpls().GetLabelUint64())
+//@ ensures[details-only-own-kind] result1 == nil && result0 != nil && op.Id in old(dom(c.qs.pendq.Ops)) && istype(old(c.qs.pendq.Ops[op.Id]).Op.Entry, *spb.AFTOperation_Ipv4)
+//@   ==> result0.Details.IPv6Prefix == "" && result0.Details.MPLSLabel == 0 && result0.Details.NextHopGroupID == 0 && result0.Details.NextHopIndex == 0
 //@ ensures[error-or-result] result1 != nil ==> result0 == nil
 //@ ensures[removed-has-result] op.Id in old(dom(c.qs.pendq.Ops)) && !(op.Id in dom(c.qs.pendq.Ops)) ==> result0 != nil && result1 == nil
 //@ ensures[wf] qsWF(c)
